@@ -89,7 +89,7 @@ func main() {
 	tier := flag.String("tier", "quick", "")
 	depth := flag.Int("depth", 0, "history length bound (default: 2 quick, 3 thorough)")
 	systems := flag.String("systems", "MemFS,OrefaFS", "")
-	variants := flag.Bool("variants", true, "also explore, for every system, the base-path spellings (<fs>@<class>) and, over MemFS, the links leaving B (MemFS+out-links)")
+	variants := flag.Bool("variants", true, "also explore, for every system, the base-path spellings (<fs>@<class>) and, over MemFS, the links leaving B (MemFS+out-links), the read-only base (MemFS+ro) and the non-administrator user (MemFS+user)")
 	replay := flag.String("replay", "", "re-execute a replay file and print what happens")
 
 	bench := flag.String("selfbench", "", "development aid: expand the initial state of the named base in-process; -prof writes a CPU profile")
@@ -190,8 +190,10 @@ func main() {
 			}
 
 			if sn == "MemFS" {
-				vs = append(vs, sn+"+out-links")
-				maxDepth[sn+"+out-links"] = 1
+				for _, v := range []string{"+out-links", "+ro", "+user"} {
+					vs = append(vs, sn+v)
+					maxDepth[sn+v] = 1
+				}
 			}
 
 			for _, v := range vs {
